@@ -106,6 +106,23 @@ def run(tier):
         R.proof = dict(ok=False, theorems=[], log=log[-3000:])
         return R.finish(K.TRUSTED, ASSUME, RULE, "make -C coq Properties/C11.vo")
     F = common.Ref(); rng = R.rng
+    # the model's operator/variable choice against create_nested_marker, single ranges with final bounds
+    from poetry.core.constraints.version import parse_constraint, VersionRange, Version
+    from poetry.core.packages.utils.utils import create_nested_marker
+    M = common.Model(); reqs, exps = [], []
+    rel = lambda v: "-" if v is None else ".".join(map(str, v.parts))
+    for _ in range(600 if tier == "quick" else 10000):
+        lo = rng.choice(BASE + [None]); hi = rng.choice(BASE + [None])
+        if lo is None and hi is None: continue
+        r = VersionRange(Version.parse(lo) if lo else None, Version.parse(hi) if hi else None, rng.random() < 0.5, rng.random() < 0.5)
+        reqs.append(["nested", rel(r.min), rel(r.max), "1" if r.include_min else "0", "1" if r.include_max else "0"])
+        exps.append((str(r), create_nested_marker("python_version", r)))
+    for b in BASE:
+        reqs.append(["nested", b]); exps.append((b, create_nested_marker("python_version", Version.parse(b))))
+    for (src, exp), m in zip(exps, M.many(reqs)):
+        R.count("model_vs_create_nested_marker")
+        if m != [exp]: R.disagree("create_nested_marker text", dict(range=src), m, exp)
+    M.close()
     for _ in range(500 if tier == "quick" else 10000):
         text = gen_range(rng)
         R.case(dict(range=text), nontrivial=("," in text or "||" in text or text.count(".") >= 2)); R.count("forward")
